@@ -463,13 +463,13 @@ func runR06_3(c *Ctx, r *R) {
 				if !ok {
 					continue
 				}
-				if mc, ok := d.Call.Value.(*ssa.MakeClosure); ok {
-					if cf, ok := mc.Fn.(*ssa.Function); ok {
-						for _, c3 := range callsIn(cf, false) {
-							if b, ok := c3.Common().Value.(*ssa.Builtin); ok && b.Name() == "recover" {
-								hasRecover = true
-								recoverDefer = d
-							}
+				// the deferred function - a closure, a method or a function - must call recover() itself
+				// (recover only stops a panic when called directly by the deferred function)
+				if cf := deferredFunc(d); cf != nil {
+					for _, c3 := range callsIn(cf, false) {
+						if b, ok := c3.Common().Value.(*ssa.Builtin); ok && b.Name() == "recover" {
+							hasRecover = true
+							recoverDefer = d
 						}
 					}
 				}
@@ -1102,4 +1102,17 @@ func ownershipFlagValue(v ssa.Value, depth int) (ok, fed bool) {
 		return allOK && any, fed
 	}
 	return false, false
+}
+
+// deferredFunc: the function a defer statement runs, when it has a body: the closure, or the static callee.
+func deferredFunc(d *ssa.Defer) *ssa.Function {
+	if mc, ok := d.Call.Value.(*ssa.MakeClosure); ok {
+		if cf, ok := mc.Fn.(*ssa.Function); ok {
+			return cf
+		}
+	}
+	if cf := d.Call.StaticCallee(); cf != nil && cf.Blocks != nil {
+		return cf
+	}
+	return nil
 }
